@@ -5,7 +5,7 @@ import glob, json, os, re
 ROOT = os.path.dirname(os.path.dirname(os.path.abspath(__file__)))
 rows = []
 for d in sorted(glob.glob(os.path.join(ROOT, "seeded", "*", "*"))):
-    if not os.path.exists(os.path.join(d, "patch.diff")):
+    if not os.path.exists(os.path.join(d, "patch.diff")) or os.sep + "harmless" + os.sep in d:
         continue
     p, m = d.split(os.sep)[-2:]
     try:
